@@ -47,7 +47,10 @@ def add_speeds_case(n, k, head_end, param, exact=False, prop="C02"):
         for i in range(n):
             d.append((f"v{i} <= speed_max (invariant: the profile starts at speed_max and only ever takes minima; re-proved below)", S[f"v{i}"] <= S["vmax"]))
         for j in range(k):
-            d.append((f"restriction {j}: 0 <= start < end, speed > 0", z3.And(S[f"rs{j}"] >= 0, S[f"rs{j}"] < S[f"re{j}"], S[f"rv{j}"] > 0)))
+            if head_end:
+                d.append((f"restriction {j}: 0 <= start < end, speed > 0", z3.And(S[f"rs{j}"] >= 0, S[f"rs{j}"] < S[f"re{j}"], S[f"rv{j}"] > 0)))
+            else:
+                d.append((f"restriction {j}: 0 <= start <= end (point restrictions allowed in tail-end sets), speed > 0", z3.And(S[f"rs{j}"] >= 0, S[f"rs{j}"] <= S[f"re{j}"], S[f"rv{j}"] > 0)))
             d.append((f"restriction {j} starts at/after the first profile point once shifted", S["o0"] <= S[f"rs{j}"] + S["base"]))
         if param is not None:
             d.append(("limit_val >= 0", S["lim"] >= 0))
